@@ -308,8 +308,73 @@ func runC12(r *rt.Run) {
 	r.Bounds["outers_x_16_position_inners"] = []int{len(bo), len(bi)}
 	cbo, cbi := conv(bo), conv(bi)
 	run(cbo, cbi, false)
+	// sides that carry extra collinear vertices: curated exteriors with every
+	// side cut into pieces of two units x lines (and rectangles on axis-aligned
+	// sides) lying on a side with their ends strictly inside pieces
+	{
+		var jobs [][2]*shp
+		for _, name := range []string{"square", "L", "U", "notch-seam"} {
+			rings, partners := splitSides(curatedExteriors[name])
+			for _, pt := range partners {
+				jobs = append(jobs, [2]*shp{rings, pt})
+			}
+		}
+		r.Bounds["split_side_pairs"] = len(jobs)
+		r.ParFor(len(jobs), func(i int, w *rt.Worker) {
+			pair(mkC12(jobs[i][0]), mkC12(jobs[i][1]), w)
+		})
+	}
 	r.Sample(map[string]any{"base": pairCase("contains", polys[5].E, lines[40].E, ident, ""), "transform": c12Both[9].name})
 	r.Sample(map[string]any{"base": pairCase("contains", polys[5].E, lines[40].E, ident, ""), "reencoding_of_A": cp[5].enc[1].name})
+}
+
+// splitSides: the closed ring scaled by 2 with a vertex at every second
+// lattice step of every side, and the shapes lying on its sides whose ends
+// are at odd steps (strictly inside the pieces).
+func splitSides(ring []exact.P) (*shp, []*shp) {
+	gcd := func(a, b int64) int64 {
+		if a < 0 {
+			a = -a
+		}
+		if b < 0 {
+			b = -b
+		}
+		for b != 0 {
+			a, b = b, a%b
+		}
+		return a
+	}
+	cyc := exact.Cyclic(ring)
+	var dense []exact.P
+	var partners []*shp
+	for i := range cyc {
+		a, b := exact.P{X: 2 * cyc[i].X, Y: 2 * cyc[i].Y}, exact.P{X: 2 * cyc[(i+1)%len(cyc)].X, Y: 2 * cyc[(i+1)%len(cyc)].Y}
+		g := gcd(b.X-a.X, b.Y-a.Y)
+		ux, uy := (b.X-a.X)/g, (b.Y-a.Y)/g
+		at := func(k int64) exact.P { return exact.P{X: a.X + k*ux, Y: a.Y + k*uy} }
+		for k := int64(0); k < g; k += 2 {
+			dense = append(dense, at(k))
+		}
+		for k1 := int64(1); k1 < g; k1 += 2 {
+			for k2 := k1 + 2; k2 < g; k2 += 2 {
+				p, q := at(k1), at(k2)
+				partners = append(partners, mkShp(&exact.Shape{Kind: exact.KLine, Line: []exact.P{p, q}}, nil))
+				if k2 > k1+2 {
+					partners = append(partners, mkShp(&exact.Shape{Kind: exact.KLine, Line: []exact.P{p, at(k1 + 2), q}}, nil))
+				}
+				if ux == 0 || uy == 0 {
+					// rectangles one unit deep on either side of the side
+					for _, d := range []int64{-1, 1} {
+						r0, r1 := p, exact.P{X: q.X + d*uy, Y: q.Y + d*ux}
+						mn := exact.P{X: min(r0.X, r1.X), Y: min(r0.Y, r1.Y)}
+						mx := exact.P{X: max(r0.X, r1.X), Y: max(r0.Y, r1.Y)}
+						partners = append(partners, mkShp(&exact.Shape{Kind: exact.KRect, Min: mn, Max: mx}, nil))
+					}
+				}
+			}
+		}
+	}
+	return mkShp(&exact.Shape{Kind: exact.KPoly, Ext: lat.Close(dense)}, nil), partners
 }
 
 func evalC12(c *rt.Case) (bool, string, string, error) {
